@@ -24,6 +24,7 @@ EXPLANATION = (
     "runs make the same choices. U (not applicable statically): the two-run relation itself, and the ASCII separator's "
     "behaviour on sequences that contain spaces."
     " (R2) imported lemmas C10, C11.R3, C12.R3, C12.R4: every width compared in the pipeline is display_width of the text it stands for, and the hyphen splitter inspects only the neighbours of a hyphen."
+    " (R3) same rule as C05.R5: every producer of fragment boundaries scans with the escape skipper; the hyphen splitter and the ASCII-space separator do not, which is a genuine finding on the pinned tree (KNOWN_FINDINGS.txt: a hyperlink whose URL contains a hyphen, an OSC title containing a space)."
 )
 ASSUMPTIONS = ["A-rustc", "A-std", "A-lb"]
 LEVEL_TEXT = (
@@ -101,6 +102,11 @@ def run(prog, rep):
         guarded(rep, "C11.R2", C11.UNI, lambda: C11._unicode(prog, rep))
     # every width the pipeline compares is display_width of the text it stands for (which ignores the sequences: C10),
     # and the hyphen splitter only looks at the neighbours of a '-' (C12.R4: "does not touch a hyphen")
+    # no fragment boundary inside an escape sequence (same rule as C05.R5): otherwise the pieces are measured with
+    # incomplete sequences and coloured / hyperlinked text breaks differently from the plain text
+    from .C05 import _escape_aware
+    guarded(rep, "C13.R3", "crate", lambda: _escape_aware(
+        prog, rep, rule="C13.R3", consequence="text with such a sequence is wrapped differently from the same text without it"))
     from .. import lemmas
     lemmas.load_all()
     for l in ("C10", "C11.R3", "C12.R3", "C12.R4"):
